@@ -41,6 +41,8 @@ func FaultErr(kind string, write bool) error {
 		return io.ErrUnexpectedEOF
 	case "closed-pipe":
 		return io.ErrClosedPipe
+	case "wrapped-eof":
+		return errWrappedEOF
 	case "short-write":
 		return io.ErrShortWrite
 	}
@@ -55,6 +57,10 @@ var ErrInjected = errors.New("sim: injected read failure")
 
 // ErrInjectedWrite is the error every injected write failure wraps.
 var ErrInjectedWrite = errors.New("sim: injected write failure")
+
+// errWrappedEOF is a failure whose chain contains io.EOF ("read tcp ...: EOF"): it is not io.EOF itself, so a reader must
+// not take it for the end of the data.
+var errWrappedEOF = fmt.Errorf("sim: connection reset while reading: %w", io.EOF)
 
 // Spin is the sentinel panic raised when the reader keeps calling Read after end of data.
 type Spin struct{ ReadsAfterEnd int }
